@@ -31,6 +31,10 @@ def spec_for(c):
         paths["/p1"] = {"get": {"operationId": "one", "responses": {"200": {"description": "ok", "schema": {"$ref": "#/definitions/" + urllib.parse.quote(esc(a))}}}}}
         paths["/p2"] = {"get": {"operationId": "two", "responses": {"200": {"description": "ok", "schema": {"$ref": "#/definitions/" + urllib.parse.quote(esc(b))}}}}}
         routes = ["/p1", "/p2"]
+    if pos in ("opid", "path"):
+        # an operation under another method next to the pair: counting operations per method is not enough
+        paths["/zz-other"] = {"post": {"operationId": "zzOtherPost", "responses": resp("base")}, "delete": {"operationId": "zzOtherDelete", "responses": resp("base")}}
+        routes = [("GET", r) for r in routes] + [("POST", "/zz-other"), ("DELETE", "/zz-other")]
     base_path = None
     if pos == "shape":
         op = lambda oid, params=(): {"operationId": oid, "parameters": [{"name": n, "in": "path", "required": True, "type": "string"} for n in params],
